@@ -880,9 +880,21 @@ Result execMat(const std::string& what, bool piv, const std::vector<std::string>
   LaneCmp<V> cmp{res, what};
 
   if (what == "det") {
-    V d = A.determinant(piv);
+    // determinant() promises a value for every matrix (singular lanes give 0); an FMatrixError is reported, not a crash
+    V d;
+    try { d = A.determinant(piv); }
+    catch (Dune::FMatrixError&) {
+      res.impl = "ERR:FMatrix";
+      res.oracle = "FAIL determinant throws FMatrixError (it must return 0 in the singular lanes and the determinant in the others)";
+      return res;
+    }
     res.impl = "[" + showLanesOf(d) + "]";
-    for (std::size_t l = 0; l < S; ++l) cmp(d, l, a[l].determinant(piv), "result");
+    for (std::size_t l = 0; l < S; ++l) {
+      T want;
+      try { want = a[l].determinant(piv); }
+      catch (Dune::FMatrixError&) { if (res.oracle == "ok") res.oracle = "FAIL the scalar determinant of lane " + std::to_string(l) + " throws FMatrixError"; continue; }
+      cmp(d, l, want, "result");
+    }
     return res;
   }
   if (what == "solve") {
@@ -965,9 +977,34 @@ Result execRect(const std::string& what, const std::vector<std::string>& ta, con
       cmp(v, l, what == "fnorm2" ? a[l].frobenius_norm2() : what == "fnorm" ? a[l].frobenius_norm() : what == "infnorm" ? a[l].infinity_norm() : a[l].infinity_norm_real(), "result");
     return res;
   }
-  const bool transposed = what == "mtv" || what == "umtv" || what == "mmtv" || what == "usmtv";
+  if (what == "madd" || what == "msub" || what == "mscale" || what == "mdiv" || what == "mneg" || what == "maxpy") {
+    // (round 4) the vector-space operations of DenseMatrix: A += B, A -= B, A *= alpha, A /= alpha, -A, A.axpy(alpha, B)
+    // (op line: rect <op> <shape> <r> <c> <A> <B> [] <alpha>)
+    if (talpha.size() != S) throw std::runtime_error("alpha data size");
+    V alpha;
+    std::array<T, S> alphas;
+    for (std::size_t l = 0; l < S; ++l) { alphas[l] = Cod<T>::parse(talpha[l]); RawT<V>::at(alpha, l) = alphas[l]; }
+    Dune::FieldMatrix<V, r, c> B;
+    std::array<Dune::FieldMatrix<T, r, c>, S> b;
+    loadMat<V>(tx, r, c, B, b);
+    dv::stat("matop_" + what);
+    auto run = [&](auto& M, const auto& N, const auto& al) {
+      if (what == "madd") M += N; else if (what == "msub") M -= N; else if (what == "mscale") M *= al; else if (what == "mdiv") M /= al;
+      else if (what == "mneg") M = -M; else M.axpy(al, N);
+    };
+    run(A, B, alpha);
+    res.impl = showMatOf<V>(A, r, c);
+    for (std::size_t l = 0; l < S; ++l) {
+      run(a[l], b[l], alphas[l]);
+      for (int i = 0; i < r; ++i) for (int j = 0; j < c; ++j) cmp(A[i][j], l, a[l][i][j], "entry[" + std::to_string(i) + "][" + std::to_string(j) + "]");
+    }
+    return res;
+  }
+  // (round 4) the hermitian kernels umhv / mmhv / usmhv (conjugateComplex is the identity on real lanes) run like the transposed ones
+  const bool transposed = what == "mtv" || what == "umtv" || what == "mmtv" || what == "usmtv" || what == "umhv" || what == "mmhv" || what == "usmhv";
   const bool plain = what == "mv" || what == "umv" || what == "mmv" || what == "usmv";
   if (!transposed && !plain) return noSuchOp();
+  dv::stat("kernel_" + what);
   if (talpha.size() != S) throw std::runtime_error("alpha data size");
   V alpha;
   std::array<T, S> alphas;
@@ -984,10 +1021,15 @@ Result execRect(const std::string& what, const std::vector<std::string>& ta, con
   } else {
     Dune::FieldVector<V, r> x; std::array<Dune::FieldVector<T, r>, S> xs; loadVec<V>(tx, r, x, xs);
     Dune::FieldVector<V, c> y; std::array<Dune::FieldVector<T, c>, S> ys; loadVec<V>(ty, c, y, ys);
-    if (what == "mtv") A.mtv(x, y); else if (what == "umtv") A.umtv(x, y); else if (what == "mmtv") A.mmtv(x, y); else A.usmtv(alpha, x, y);
+    auto runT = [&](const auto& M, const auto& al, const auto& xv, auto& yv) {
+      if (what == "mtv") M.mtv(xv, yv); else if (what == "umtv") M.umtv(xv, yv); else if (what == "mmtv") M.mmtv(xv, yv);
+      else if (what == "usmtv") M.usmtv(al, xv, yv); else if (what == "umhv") M.umhv(xv, yv); else if (what == "mmhv") M.mmhv(xv, yv);
+      else M.usmhv(al, xv, yv);
+    };
+    runT(A, alpha, x, y);
     res.impl = showVecOf<V>(y, c);
     for (std::size_t l = 0; l < S; ++l) {
-      if (what == "mtv") a[l].mtv(xs[l], ys[l]); else if (what == "umtv") a[l].umtv(xs[l], ys[l]); else if (what == "mmtv") a[l].mmtv(xs[l], ys[l]); else a[l].usmtv(alphas[l], xs[l], ys[l]);
+      runT(a[l], alphas[l], xs[l], ys[l]);
       for (int i = 0; i < c; ++i) cmp(y[i], l, ys[l][i], "y[" + std::to_string(i) + "]");
     }
   }
@@ -1044,9 +1086,21 @@ Result execDMat(const std::string& what, int n, bool piv, const std::vector<std:
   loadMat<V>(ta, n, n, A, a);
   LaneCmp<V> cmp{res, what};
   if (what == "det") {
-    V d = A.determinant(piv);
+    // determinant() promises a value for every matrix (singular lanes give 0); an FMatrixError is reported, not a crash
+    V d;
+    try { d = A.determinant(piv); }
+    catch (Dune::FMatrixError&) {
+      res.impl = "ERR:FMatrix";
+      res.oracle = "FAIL determinant throws FMatrixError (it must return 0 in the singular lanes and the determinant in the others)";
+      return res;
+    }
     res.impl = "[" + showLanesOf(d) + "]";
-    for (std::size_t l = 0; l < S; ++l) cmp(d, l, a[l].determinant(piv), "result");
+    for (std::size_t l = 0; l < S; ++l) {
+      T want;
+      try { want = a[l].determinant(piv); }
+      catch (Dune::FMatrixError&) { if (res.oracle == "ok") res.oracle = "FAIL the scalar determinant of lane " + std::to_string(l) + " throws FMatrixError"; continue; }
+      cmp(d, l, want, "result");
+    }
     return res;
   }
   if (what == "solve" || what == "mv") {
@@ -2051,7 +2105,8 @@ static std::string genEntries(Rng& rng, std::size_t count, bool f32) {
 }
 
 static std::string genRect(Rng& rng) {
-  static const std::vector<std::string> whats = {"mv", "mtv", "umv", "umtv", "mmv", "mmtv", "usmv", "usmtv", "fnorm2", "fnorm", "infnorm", "infnormr"};
+  static const std::vector<std::string> whats = {"mv", "mtv", "umv", "umtv", "mmv", "mmtv", "usmv", "usmtv", "umhv", "mmhv", "usmhv", "fnorm2", "fnorm", "infnorm", "infnormr",
+                                                 "madd", "msub", "mscale", "mdiv", "mneg", "maxpy"};
   const std::string what = rng.pick(whats);
   const std::string shape = rng.pick(rectShapes());
   const std::size_t S = shapeLanesM(shape);
@@ -2059,7 +2114,9 @@ static std::string genRect(Rng& rng) {
   auto rc = rng.pick(rectSizes());
   std::string line = "rect " + what + " " + shape + " " + std::to_string(rc.first) + " " + std::to_string(rc.second) + " " + genEntries(rng, rc.first * rc.second * S, f32);
   if (what.find("norm") != std::string::npos) return line;
-  const bool transposed = what == "mtv" || what == "umtv" || what == "mmtv" || what == "usmtv";
+  if (what == "madd" || what == "msub" || what == "mscale" || what == "mdiv" || what == "mneg" || what == "maxpy")
+    return line + " " + genEntries(rng, rc.first * rc.second * S, f32) + " [] " + genEntries(rng, S, f32);
+  const bool transposed = what == "mtv" || what == "umtv" || what == "mmtv" || what == "usmtv" || what == "umhv" || what == "mmhv" || what == "usmhv";
   const int nx = transposed ? rc.first : rc.second, ny = transposed ? rc.second : rc.first;
   return line + " " + genEntries(rng, nx * S, f32) + " " + genEntries(rng, ny * S, f32) + " " + genEntries(rng, S, f32);
 }
